@@ -148,6 +148,23 @@ pub fn oracle_c07(cfg: &EwCfg, tr: &EwTrace, expect_echo: bool) -> Vec<Violation
             for e in tr.cev[i].iter() { if let Ev::Error(k) = e.ev { if k != 2 && k != 0 { out.push(viol("C07.config", "C07.config:wrong-error".into(), format!("client {} was refused with {} instead of Error(Config)", i, ev_name(&e.ev)))); } } }
         }
     }
+    // no half-open connection: a client that reports Connect has a server that reports Connect for it as well, provided both objects
+    // stay alive, nothing is blacked out, at most three datagrams between them are lost or held long, steps are <= 2 s apart and the
+    // run goes on for 25 s after the client's Connect (the SYN-ACK retries that elicit a fresh ACK span 20 s)
+    for i in 0..n {
+        if tr.gens[i] != 1 { continue; }
+        let forgot = tr.calls.iter().any(|c| matches!(c.act, Act::Forget(k) | Act::SDrop(k) if k == i));
+        let bad = tr.wire.iter().filter(|d| !d.injected && (d.src == caddr(i) || d.dst == caddr(i)) && matches!(d.fate, DFate::Drop | DFate::HoldLong)).count();
+        let injected = tr.wire.iter().any(|d| d.injected);
+        let gap_all = tr.obs.windows(2).map(|w| w[1].t_ms - w[0].t_ms).max().unwrap_or(0);
+        if let Some(e) = tr.cev[i].iter().find(|e| e.ev == Ev::Connect) {
+            let t_end = tr.obs.last().map_or(0, |o| o.t_ms);
+            if !forgot && !injected && tr.blackout.is_none() && bad <= 3 && gap_all <= 2000 && t_end >= e.t_ms + 25_000 && cfg.max_active >= cfg.clients.len() && cfg.max_total >= cfg.clients.len()
+                && !tr.sev[i].iter().any(|x| x.ev == Ev::Connect) {
+                out.push(viol("C07.half-open", "C07.half-open".into(), format!("client {} reported Connect in round {} (t={} ms) but the server never reported Connect for it in the {} ms that followed, although only {} datagrams were lost or held long and both endpoints stayed alive (server events for that address: {:?})", i, e.round, e.t_ms, t_end - e.t_ms, bad, tr.sev[i].iter().map(|x| ev_name(&x.ev)).collect::<Vec<_>>())));
+            }
+        }
+    }
     // negotiated limits: once both ends report the connection, each sender's limits are the ones its peer is configured with
     // (receive allocation rounded up to whole fragments, rate = min(own max_send_rate, peer max_receive_rate))
     let ceil = |n: usize| (n + 1447) / 1448 * 1448;
@@ -367,6 +384,28 @@ struct Retry { next: u64, remaining: u32 }
 pub fn oracle_c10(cfg: &EwCfg, tr: &EwTrace) -> Vec<Violation> {
     let mut out = Vec::new();
     let n = cfg.clients.len();
+    // retries are 2 s apart: two transmissions of the same SYN, SYN-ACK or disconnect request (identical bytes, same endpoints; every
+    // wire entry is a transmission by the endpoint - network duplicates do not add entries) by the same connection attempt are never
+    // closer than that, however late a step comes
+    {
+        let mut last: std::collections::HashMap<(std::net::SocketAddr, std::net::SocketAddr, Vec<u8>), (u64, usize)> = Default::default();
+        let connect_rounds: Vec<(usize, usize)> = tr.calls.iter().filter_map(|c| if let Act::Connect(k) = c.act { Some((k, c.round)) } else { None }).collect();
+        for d in tr.wire.iter().filter(|d| !d.injected) {
+            if !matches!(d.frame, Some(Frame::HandshakeSynFrame(_)) | Some(Frame::HandshakeSynAckFrame(_)) | Some(Frame::DisconnectFrame(_))) { continue; }
+            let t_sent = tr.obs.get(d.sent_round).map_or(d.t_ms, |o| o.t_ms);
+            let key = (d.src, d.dst, d.bytes.clone());
+            if let Some((prev, prev_round)) = last.get(&key).copied() {
+                // a new Client object at that address in between starts a new attempt
+                let ci = client_index(&d.src).or_else(|| client_index(&d.dst));
+                let renewed = ci.map_or(false, |k| connect_rounds.iter().any(|(kk, r)| *kk == k && *r > prev_round && *r <= d.sent_round));
+                if !renewed && d.by_step && t_sent - prev < 2000 {
+                    out.push(viol("C10.retry-spacing", "C10.retry-spacing".into(), format!("{} -> {}: {} transmitted again {} ms after its previous transmission (t={} ms and t={} ms); retries are 2 s apart", d.src.port(), d.dst.port(), frame_kind(&d.frame, &d.bytes), t_sent - prev, prev, t_sent)));
+                    break;
+                }
+            }
+            last.insert(key, (t_sent, d.sent_round));
+        }
+    }
     let is_conn_frame = |f: &Option<Frame>| matches!(f, Some(Frame::DataFrame(_)) | Some(Frame::AckFrame(_)) | Some(Frame::SyncFrame(_)));
     for i in 0..n {
         let t_cfg = cfg.clients[i].active_timeout_ms;
